@@ -127,8 +127,8 @@ func buildWitness(c *Case) []WOp {
 			q.st = 2
 		case "send":
 			sp := peers[o.N]
-			if sp.st == 2 {
-				continue
+			if sp.st == 2 || (o.NoPing && !o.Ack) {
+				continue // never reached the hub
 			}
 			if o.Size > maxMessage {
 				if sp.canRead && !sp.cut { // what it had received until then
